@@ -93,6 +93,10 @@ def base(kind: str, ka: bool, retries: int, fr: str | None = None, t: int = T) -
 # ------------------------------------------------------------------------------------------------
 # scenario families
 # ------------------------------------------------------------------------------------------------
+OPS3 = [{"do": "req", "op": "read", "n": 2}, {"do": "req", "op": "write", "v": -2},
+        {"do": "req", "op": "wmulti", "payload": "0011223344556677"}]
+
+
 def fam_script(retries_list, gaps, faults_key="full", conn_variants=True, kinds=("udp", "tcp"),
                scale: int = 1, limit: int | None = None, rnd: random.Random | None = None) -> list[dict]:
     """One caller, three requests: the first under every fault script of depth retries+1, the second
@@ -119,7 +123,13 @@ def fam_script(retries_list, gaps, faults_key="full", conn_variants=True, kinds=
                         for g in gaps:
                             for cn in conns:
                                 sc = base(kind, ka, r, t=T * scale)
-                                sc["epochs"] = [[{"start": 0, "prog": [req(100), {"do": "sleep", "d": g * scale}, req(101),
+                                # the kind of command rotates (read / single write / multi-register write): the budget of
+                                # a request does not depend on what it asks for
+                                # (fragment faults are about read answers: the model's "head" is the head of a read answer)
+                                k1 = OPS3[0] if any(mf["k"] in ("frag", "lone") for mf in script) else OPS3[nvar % 3]
+                                k2 = OPS3[(nvar // 3 + vi) % 3]
+                                sc["epochs"] = [[{"start": 0, "prog": [dict(k1, reg=100), {"do": "sleep", "d": g * scale},
+                                                                        dict(k2, reg=101),
                                                                         {"do": "sleep", "d": g * scale}, req(102)]}]]
                                 sc["rfaults"] = [list(conc), [], [{"k": "ans", "d": scale}]]
                                 sc["connects"] = list(cn)
@@ -166,6 +176,17 @@ def fam_frag(counts, tier: str, rnd: random.Random) -> list[dict]:
                                           {"k": "frag", "split": s2, "d": 1, "d2": 2, "second": "exact"}], [{"k": "ans", "d": 1}]]
                         sc["family"] = "frag"
                         out.append(sc)
+                # a stray first piece arrives while the protocol is idle (left over from a duplicate); the next request is
+                # answered in two pieces, the second one later than one timeout after that stray piece
+                if split in (splits[0], splits[len(splits) // 2], splits[-1]) or tier != "quick":
+                    for g in (2, 3):
+                        for (d, d2) in ((1, T), (1, T - 1), (2, T + 1)):
+                            sc = base(kind, True, 1, fr)
+                            sc["epochs"] = [[{"start": 0, "prog": [req(100, n=n), {"do": "sleep", "d": g}, req(101, n=n)]}]]
+                            sc["rfaults"] = [[{"k": "anshead", "split": split, "d": 1, "d2": 2}],
+                                             [{"k": "frag", "split": split, "d": d, "d2": d2, "second": "exact"}, {"k": "ans", "d": 1}]]
+                            sc["family"] = "frag"
+                            out.append(sc)
                 # the same exact splits with contents that look like a frame header wherever the answer is cut
                 for pat in ("aa55", "55aa", "aa557fc0"):
                     sc = base(kind, True, 1, fr)
